@@ -283,6 +283,100 @@ def check_fd(case, report):
     return es, el
 
 
+def check_physics(case, report, M=32):
+    """source == -(K1 d f_eq/d chi - K2 d f_eq/d rz) with K1, K2 read off the Liouville array
+    the code builds, f_eq = the code's _feq composed with the ANALYTIC profiles, derivatives of
+    f_eq by central differences (mirrors theorem source_is_minus_liouville_of_equilibrium)"""
+    WallGo, Grid, Polynomial, CollisionArray = wg()
+    grid = Grid(M, case["N"], case["Lxi"], case["T0"])
+    ps = make_particles(case["stats"], case["couplings"])
+    s = WallGo.BoltzmannSolver(grid, "Cardinal", "Cardinal", "Spectral")
+    s.updateParticleList(ps)
+    s.setBackground(make_background(grid, case))
+    ca = CollisionArray(grid, "Cardinal", ps)
+    ca.polynomialData.coefficients[...] = 0.0
+    s.setCollisionArray(ca)
+    _, src, li, _ = s.buildLinearEquations()
+    P, m, n = len(ps), M - 1, case["N"] - 1
+    src = src.reshape(P, m, n, n)
+    prof = lambda x: 0.5 * (1 + np.tanh(x / case["width"]))
+    vwall_frame = lambda x: case["v0"] + case["av"] * (prof(x) - 0.5)
+    Tf = lambda x: case["T0"] * (1 + case["aT"] * (prof(x) - 0.5))
+    ff = lambda x: case["f0"] * (1 - case["af"] * prof(x))
+    vmid = 0.5 * (vwall_frame(-np.inf) + vwall_frame(np.inf))
+    boost = lambda v, u: (v - u) / (1 - u * v)
+    vf = lambda x: boost(vwall_frame(x), vmid)
+    xi, pz, pp = grid.getCoordinates()
+    if not (np.abs(vf(xi) - s.background.velocityProfile[1:-1]).max() < 1e-12 and
+            abs(boost(0.0, vmid) - s.background.velocityWall) < 1e-12):
+        report("setBackground does not hold the profile boosted by velocityMid",
+               dict(check="physics", case=case), "physics:boost")
+        return None
+    stat = [-1 if p.statistics == "Fermion" else 1 for p in ps]
+
+    def feq(a, x_, p_, q_):
+        E = np.sqrt(case["couplings"][a] * ff(x_) ** 2 + p_ ** 2 + q_ ** 2)
+        g = 1 / np.sqrt(1 - vf(x_) ** 2)
+        return WallGo.BoltzmannSolver._feq(g * (E - vf(x_) * p_) / Tf(x_), stat[a])
+    dxidchi, dpzdrz, _ = grid.getCompactificationDerivatives()
+    tp = Polynomial(np.ones(M + 1), grid, "Cardinal", "z", True)
+    Dchi = tp.derivMatrix("Cardinal", "z")[1:-1]
+    Drz = tp.derivMatrix("Cardinal", "pz")[1:-1]
+    want = np.zeros_like(src)
+    h, hp = 1e-5, 1e-5 * case["T0"]
+    for a in range(P):
+        for al in range(m):
+            for be in range(n):
+                for ga in range(n):
+                    i, j = (al + 1) % m, (be + 1) % n
+                    K1 = li[a, al, be, ga, a, i, be, ga] / Dchi[al, i]
+                    K2 = -li[a, al, be, ga, a, al, j, ga] / Drz[be, j]
+                    dfx = (feq(a, xi[al] + h, pz[be], pp[ga]) -
+                           feq(a, xi[al] - h, pz[be], pp[ga])) / (2 * h)
+                    dfp = (feq(a, xi[al], pz[be] + hp, pp[ga]) -
+                           feq(a, xi[al], pz[be] - hp, pp[ga])) / (2 * hp)
+                    want[a, al, be, ga] = -(K1 * dfx * dxidchi[al] - K2 * dfp * dpzdrz[be])
+    e = rel(src, want)
+    if not e < 1e-3:
+        w = np.unravel_index(np.argmax(np.abs(src - want)), src.shape)
+        report("source differs from -Liouville[f_eq] (analytic profiles, M=%d) by %.2e; worst "
+               "entry %s: code %.6g, expected %.6g" % (M, e, tuple(int(x) for x in w),
+                                                       src[w], want[w]),
+               dict(check="physics", case=case, M=M, diff=e, entry=[int(x) for x in w],
+                    code=float(src[w]), expected=float(want[w])),
+               "physics:source-vs-liouville-feq:%s" % case["kind"])
+    return e
+
+
+def check_background(case, report):
+    """setBackground must not touch the caller's object; the same object handed to two
+    solvers (or twice to one) gives the same stored background"""
+    grid, ps, coll, _ = setup(case)
+    bg = make_background(grid, case)
+    snap = (np.array(bg.velocityProfile, copy=True), float(bg.velocityWall),
+            np.array(bg.temperatureProfile, copy=True), np.array(bg.fieldProfiles, copy=True))
+    s1 = make_solver(grid, ps, bg, coll, "Cardinal", "Cardinal")
+    v1 = np.array(s1.background.velocityProfile, copy=True)
+    d1 = s1.solveBoltzmannEquations()
+    s2 = make_solver(grid, ps, bg, coll, "Cardinal", "Cardinal")
+    s1.setBackground(bg)
+    d1b = s1.solveBoltzmannEquations()
+    d2 = s2.solveBoltzmannEquations()
+    same_caller = (np.array_equal(snap[0], bg.velocityProfile) and
+                   snap[1] == float(bg.velocityWall) and
+                   np.array_equal(snap[2], bg.temperatureProfile) and
+                   np.array_equal(snap[3], np.asarray(bg.fieldProfiles)))
+    if not same_caller:
+        report("BoltzmannSolver.setBackground changed the caller's background object "
+               "(velocityWall %r -> %r)" % (snap[1], float(bg.velocityWall)),
+               dict(check="background", case=case), "background:caller-mutated")
+    if not (np.array_equal(d1, d2) and np.array_equal(d1, d1b) and
+            np.array_equal(v1, s2.background.velocityProfile)):
+        report("the same background object handed to setBackground again gives a different "
+               "solution: |d(deltaF)| = %.2e (second solver), %.2e (same solver, set twice)"
+               % (rel(d2, d1), rel(d1b, d1)), dict(check="background", case=case),
+               "background:history")
+
 def check_history(case, report):
     """spectral solve, FD cross-check through the real EOM method, spectral solve again"""
     from WallGo.equationOfMotion import EOM
@@ -443,11 +537,15 @@ def run(ctx):
         b_src = vlib.read_src("boltzmann.py")
         e_src = vlib.read_src("equationOfMotion.py")
         c_src = vlib.read_src("collisionArray.py")
-        text, tr = gen_boltz.generate(b_src, e_src, c_src)
+        k_src = vlib.read_src("containers.py")
+        text, tr = gen_boltz.generate(b_src, e_src, c_src, k_src)
         ctx.write("Boltz.v", text, sources=dict(
             files=["src/WallGo/boltzmann.py", "src/WallGo/equationOfMotion.py",
-                   "src/WallGo/collisionArray.py"],
-            sha=[vlib.sha(b_src), vlib.sha(e_src), vlib.sha(c_src)], spans=tr.spans))
+                   "src/WallGo/collisionArray.py", "src/WallGo/containers.py"],
+            sha=[vlib.sha(b_src), vlib.sha(e_src), vlib.sha(c_src), vlib.sha(k_src)],
+            spans=tr.spans))
+        ctx.log("setBackground: copy kind %s, boost on %s, boost rebinds only %s" % (
+            tr.bg["kind"], tr.bg["target"], tr.bg["rebinds"]))
         ctx.log("derivative facts:", [(m, t, p, d) for m, t, p, d, _, _ in tr.dfacts])
         ctx.log("FD cross-check: copy kind %s, ops %s, changeBasis in place %s" % (
             tr.fd["kind"], tr.fd["ops"], tr.fd["inplace"]))
@@ -460,8 +558,12 @@ def run(ctx):
                     "fact extractors)", "Interval tactic (certified evaluation)",
                     "mathcomp 1.x matrix library"]
 
+    seen = {}
+
     def report(what, replay, key):
-        ctx.fail_input(what, replay, key=key)
+        seen[key] = seen.get(key, 0) + 1
+        if seen[key] <= 2:          # the first two inputs of each failure class are enough
+            ctx.fail_input(what, replay, key=key)
 
     # --- certified correspondence ------------------------------------------------------
     have_model = gen_ok and os.path.exists(os.path.join(ctx.bdir, "Boltz.vo"))
@@ -520,6 +622,27 @@ def run(ctx):
                 except Exception as ex:
                     report("finite-difference solver raised %r" % ex,
                            dict(check="fd", case=case), "raises")
+        for kind in ("T", "v", "f", "all"):
+            for rep in range(ctx.n(1, 4)):
+                case = rand_case(rng, 0, 3, 1 + (rep + (kind == "all")) % 2, kind)
+                try:
+                    e = check_physics(case, report)
+                    ctx.count("physics_source_vs_liouville_feq", case, bucket=kind)
+                    if kind == "all" and rep == 0:
+                        ctx.sample(dict(physics_case=case, rel_diff=e))
+                except Exception as ex:
+                    ctx.log(traceback.format_exc())
+                    report("physics check raised %r" % ex, dict(check="physics", case=case),
+                           "raises")
+        for rep in range(ctx.n(2, 6)):
+            case = rand_case(rng, rng.choice([6, 8]), 3, 1 + rep % 2, rng.choice(["v", "all"]))
+            try:
+                check_background(case, report)
+            except Exception as ex:
+                ctx.log(traceback.format_exc())
+                report("background check raised %r" % ex, dict(check="background", case=case),
+                       "raises")
+            ctx.count("background_aliasing", case)
         for rep in range(ctx.n(2, 8)):
             case = rand_case(rng, rng.choice([6, 8, 10]), rng.choice([3, 5]), 1 + rep % 2, "all")
             try:
@@ -548,7 +671,9 @@ def run(ctx):
         "mode: residual, homogeneous => 0, deltaF at 25 off-grid points and all Deltas equal "
         "across bases, assembled-operator factorisation and its three per-factor hypotheses; "
         "fd: source and Liouville(test function) FD vs spectral at M=10,20,40; history: "
-        "spectral / real EOM.getBoltzmannFiniteDifference twice / spectral; certified_eval: "
+        "spectral / real EOM.getBoltzmannFiniteDifference twice / spectral; physics: source vs "
+        "-(K1 d/dchi - K2 d/drz) f_eq with K1,K2 read off the code's Liouville array and f_eq "
+        "the code's _feq on analytic profiles (M=32, rel 1e-3); certified_eval: "
         "entries of source, operator, liouville, collision of the running code vs the "
         "generated Coq kernels by interval arithmetic (rel 1e-9); distinct = distinct case "
         "dictionary")
@@ -575,5 +700,9 @@ def replay(rep):
         check_fd(case, report)
     elif kind == "history":
         check_history(case, report)
+    elif kind == "background":
+        check_background(case, report)
+    elif kind == "physics":
+        check_physics(case, report, rep.get("M", 32))
     print("reproduced" if any(k == rep.get("key") for k, _ in msgs) else "not reproduced")
     return 1 if msgs else 0
